@@ -256,6 +256,14 @@ func zzTSEq(a zzRefTS, b CdrHdrTimeStamp) bool {
 //gosx:property=C15 tier=quick shards=6 p.maxrec=2 p.maxrec.thorough=3 p.extlens=2 p.extlens.thorough=3 p.payloadlens=2 p.payloadlens.thorough=4
 func ZZ_C15_Layout() {
 	f := zzFile()
+	if vx.Param("shard", 0) == 0 && vx.Choice("pathAlreadyHoldsALongerFile", 2) == 1 { // (one shard explores the rewrite)
+		// the CHF rewrites one file per subscriber: the path may hold an older,
+		// longer file (here: the same content plus 8 more octets)
+		f.Encoding("/tmp/zz_c15.cdr")
+		d0, _ := os.ReadFile("/tmp/zz_c15.cdr")
+		older := append(append([]byte{}, d0...), 1, 2, 3, 4, 5, 6, 7, 8)
+		vx.Assert("older file in place", os.WriteFile("/tmp/zz_c15.cdr", older, 0o666) == nil)
+	}
 	f.Encoding("/tmp/zz_c15.cdr")
 	d, err := os.ReadFile("/tmp/zz_c15.cdr")
 	vx.Assert("file written", err == nil)
